@@ -191,6 +191,15 @@ def handle (op : String) (args : Lean.Json) : Except String Lean.Json := do
     pure (Lean.Json.mkObj [
       ("model", resToJson (fun b => Lean.Json.mkObj [("outcome", "ok"), ("equal", .bool b)]) r),
       ("spec", spec)])
+  | "hash" =>
+    let x ← decodeGoVal (getArg args "x")
+    let y ← decodeGoVal (getArg args "y")
+    let eq := Go.equal x y
+    let encEq : Lean.Json := match Go.hashEnc x, Go.hashEnc y with
+      | .ok a, .ok b => .bool (a == b)
+      | _, _ => .null
+    pure (Lean.Json.mkObj [("model", Lean.Json.mkObj [("outcome", "ok"),
+      ("equal", match eq with | .ok b => .bool b | _ => .null), ("hash_equal", encEq)])])
   | "validate" => handleValidate args
   | "decorate" =>
     let ra ← handleValidate args
